@@ -242,8 +242,10 @@ func runShard(c *core.Ctx, b *rcorpus.Built, bufsize int, comps []rcorpus.Comp, 
 		byKey[comps[i].Key] = &comps[i]
 	}
 	refs := map[string]*rcorpus.Ref{}
+	srefs := map[string]*rcorpus.Ref{} // documents of the side writers (child blocks rendered by code components)
 	type cov struct {
 		seen map[string][]bool
+		side map[string][]bool
 		xf   map[string]bool
 	}
 	covs := map[string]*cov{}
@@ -265,9 +267,16 @@ func runShard(c *core.Ctx, b *rcorpus.Built, bufsize int, comps []rcorpus.Comp, 
 			res.flushSeen += ev.Flush
 			if _, mine := byKey[ev.Key]; mine {
 				L := len(refs[ev.Key].D)
-				cv := &cov{seen: map[string][]bool{}, xf: map[string]bool{}}
+				cv := &cov{seen: map[string][]bool{}, side: map[string][]bool{}, xf: map[string]bool{}}
 				for _, k := range []string{"hard", "short", "zero"} {
 					cv.seen[k] = make([]bool, L+1)
+				}
+				if ev.Side != nil && ev.Side.B != nil {
+					srefs[ev.Key] = rcorpus.NewRef(ev.Side.Bytes(), nil)
+					for _, k := range []string{"hard", "short", "zero"} {
+						cv.side[k] = make([]bool, srefs[ev.Key].L()+1)
+					}
+					res.sumLs += int64(srefs[ev.Key].L())
 				}
 				covs[ev.Key] = cv
 				res.sumL += int64(L)
@@ -286,7 +295,10 @@ func runShard(c *core.Ctx, b *rcorpus.Built, bufsize int, comps []rcorpus.Comp, 
 		typ := ev.Ev
 		if ev.Ev == "wf" {
 			typ = ev.Kind
+		} else if ev.Ev == "sf" {
+			typ = ev.Kind + "@side"
 		}
+		sref := srefs[ev.Key]
 		var oref *rcorpus.Ref
 		if o := others[ev.Key]; o != nil {
 			oref = refs[o.Key]
@@ -314,6 +326,15 @@ func runShard(c *core.Ctx, b *rcorpus.Built, bufsize int, comps []rcorpus.Comp, 
 			if typ != "hard" && ev.Out != nil && ev.Out.Fired && ev.Out.Err == nil && ref.IsWhole(ev.Out) {
 				res.recoveredShort++
 			}
+		case "sf":
+			res.sidePoints++
+			if sref != nil && ev.K >= 0 && ev.K <= sref.L() && cv.side[ev.Kind] != nil {
+				cv.side[ev.Kind][ev.K] = true
+			}
+			if ev.Side != nil && ev.Side.Fired {
+				res.sideFired++
+				c.NontrivialN(1)
+			}
 		case "xf":
 			res.xf++
 			cv.xf[ev.Fail] = true
@@ -338,7 +359,7 @@ func runShard(c *core.Ctx, b *rcorpus.Built, bufsize int, comps []rcorpus.Comp, 
 		if ev.C2 != nil {
 			res.carry++
 		}
-		for _, f := range judge(typ, ev, comp, ref, oref, b.Sites) {
+		for _, f := range judge(typ, ev, comp, ref, oref, sref, b.Sites) {
 			cs := Case{BufSize: bufsize, Type: typ, K: ev.K, Fail: ev.Fail, Site: ev.Site, Comp: *comp, Other: others[ev.Key],
 				Rule: f.rule, Detail: f.detail, L: ref.L()}
 			res.viols = append(res.viols, viol{cs})
@@ -387,6 +408,9 @@ func runShard(c *core.Ctx, b *rcorpus.Built, bufsize int, comps []rcorpus.Comp, 
 			ok := true
 			for _, k := range []string{"hard", "short", "zero"} {
 				for _, s := range cv.seen[k] {
+					ok = ok && s
+				}
+				for _, s := range cv.side[k] {
 					ok = ok && s
 				}
 			}
@@ -438,7 +462,9 @@ func Run(c *core.Ctx) {
 	c.Level = "fault_enumeration"
 	c.Rule = "cases = (component, buffer size, single fault): writer fault at EVERY offset k in 0..|D| × {hard error with partial write, short write, zero write}, " +
 		"every failable expression / nested component / child block reached by the fault-free render (failing, and cancelling the context there), " +
-		"context cancelled before start, failing writer.Flush(); each followed by carry-over renders. Components: hand-written template set (src/*.templ) + seeded random trees for the Interp template. " +
+		"context cancelled before start, failing writer.Flush(), and for components whose code component renders its child block into a side writer: faults of THAT writer at every offset of the block; " +
+		"each followed by carry-over renders (same component into the same writer object, another component into a new writer). " +
+		"Plus writer-kind sequences: one goroutine, long-lived writer objects of 9 kinds (caller-owned bufio.Writer 16/4096/8192, bytes.Buffer, strings.Builder, Write-only, StringWriter, func-typed, ResponseWriter-like), interleaved and repeated, pools drained at some steps; every sink must hold exactly the documents rendered into it. Components: hand-written template set (src/*.templ) + seeded random trees for the Interp template. " +
 		"non-trivial = writer-fault triples with k < |D| (the fault really fires) + failing-site cases."
 	c.Assume("D is the output of the fault-free render of the same component in the same driver process (its HTML correctness is C02's business)")
 	c.Assume("a faulty writer misbehaves in exactly one Write call (single fault) and accepts everything afterwards")
@@ -474,15 +500,17 @@ func Run(c *core.Ctx) {
 	type task struct {
 		bufsize int
 		comps   []rcorpus.Comp
+		seq     []rcorpus.Job // writer-kind sequences: a process of their own
 	}
 	var tasks []task
 	for _, bs := range sizes {
+		tasks = append(tasks, task{bufsize: bs, seq: seqJobs(c.Rand(fmt.Sprintf("seq/%d", bs)), all, c.Pick(60, 1500))})
 		sh := make([][]rcorpus.Comp, nshard)
 		for i, cp := range comps {
 			sh[i%nshard] = append(sh[i%nshard], cp)
 		}
 		for _, s := range sh {
-			tasks = append(tasks, task{bs, s})
+			tasks = append(tasks, task{bufsize: bs, comps: s})
 		}
 	}
 	results := make([]*shardResult, len(tasks))
@@ -494,6 +522,10 @@ func Run(c *core.Ctx) {
 			defer wg.Done()
 			sem <- struct{}{}
 			defer func() { <-sem }()
+			if tasks[i].seq != nil {
+				results[i] = runSeqProc(c, b, tasks[i].bufsize, tasks[i].seq)
+				return
+			}
 			results[i] = runShard(c, b, tasks[i].bufsize, tasks[i].comps, all)
 		}(i)
 	}
@@ -503,6 +535,7 @@ func Run(c *core.Ctx) {
 	perSize := map[int]*struct{ points, fired, sumL, comps, complete int64 }{}
 	var viols []viol
 	positions := map[string]int{}
+	seqKinds := map[string]int{}
 	var gets, puts, recycled int64
 	allComplete := true
 	for _, r := range results {
@@ -518,6 +551,19 @@ func Run(c *core.Ctx) {
 		ps.complete += int64(r.complete)
 		if r.complete != r.expected {
 			allComplete = false
+		}
+		c.Add("side_writer_fault_points", int(r.sidePoints))
+		c.Add("side_writer_faults_fired", int(r.sideFired))
+		c.Add("side_writer_sum_block_len", int(r.sumLs))
+		c.Add("writer_kind_sequences", r.seqs)
+		c.Add("writer_kind_sequence_steps", r.seqSteps)
+		c.Add("writer_kind_sequence_steps_with_fault", r.seqFaults)
+		c.Add("writer_kind_sequence_pool_drains", r.seqGC)
+		for k, v := range r.seqKinds {
+			seqKinds[k] += v
+		}
+		if r.seqs > 0 && r.pool != nil {
+			c.Add("writer_kind_sequences_distinct_pooled_buffers", r.pool.Distinct)
 		}
 		c.Add("failing_site_cases", int(r.xf))
 		c.Add("mid_render_cancel_cases", int(r.mc))
@@ -571,6 +617,15 @@ func Run(c *core.Ctx) {
 	c.Set("buffer_sizes", sizes)
 	c.Set("per_buffer_size", fp)
 	c.Set("failing_sites_by_position", positions)
+	c.Set("writer_objects_in_sequences_by_kind", seqKinds)
+	for _, k := range rcorpus.WriterKinds {
+		if seqKinds[k] == 0 {
+			c.Inconclusive("writer kind " + k + " was never used in a sequence")
+		}
+	}
+	if c.Get("side_writer_faults_fired") == 0 {
+		c.Inconclusive("no side-writer fault was exercised")
+	}
 	c.Set("pool_hook_gets", gets)
 	c.Set("pool_hook_puts", puts)
 	c.Set("pool_hook_recycled_gets", recycled)
@@ -629,21 +684,31 @@ func replay(c *core.Ctx, b *rcorpus.Built, cs Case) {
 	if cs.Type == "pool" || cs.Type == "panic" {
 		core.Infra("replay of %q cases needs the whole workload: run ./check C10 %s with VERIF_SEED=%d", cs.Type, c.Tier, c.Seed)
 	}
+	if cs.Type == "seq" {
+		r := runSeqProc(c, b, cs.BufSize, []rcorpus.Job{*cs.Seq})
+		for _, s := range r.inconclusive {
+			c.Inconclusive(s)
+		}
+		c.NontrivialN(2)
+		report(c, r.viols)
+		return
+	}
 	kind := cs.Type
 	jobs := []rcorpus.Job{{Op: "config", BufSize: cs.BufSize, Hook: true},
 		{Op: "one", Comp: &cs.Comp, Other: cs.Other, Kind: kind, K: cs.K, Fail: cs.Fail}, {Op: "pool"}}
 	run := corpus.Run(b.Bin, nil, rcorpus.Encode(jobs), nil, b.Pkg.Dir, 5*time.Minute)
 	refs := map[string]*rcorpus.Ref{}
+	srefs := map[string]*rcorpus.Ref{}
 	var viols []viol
 	_, err := rcorpus.Decode(run.Stdout, func(ev *rcorpus.Event) {
 		switch ev.Ev {
 		case "ref":
 			refs[ev.Key] = rcorpus.NewRef(ev.Out.Bytes(), ev.Trace)
+			if ev.Side != nil {
+				srefs[ev.Key] = rcorpus.NewRef(ev.Side.Bytes(), nil)
+			}
 		case "one":
 			ev.Site = cs.Site
-			if kind == "fe" {
-				ev.Flush = 1
-			}
 			var oref *rcorpus.Ref
 			if cs.Other != nil {
 				oref = refs[cs.Other.Key]
@@ -652,7 +717,10 @@ func replay(c *core.Ctx, b *rcorpus.Built, cs Case) {
 			c.NontrivialN(2)
 			ref := refs[ev.Key]
 			fmt.Printf("replay: D=%q\n        received=%q err=%v\n", ref.D, ev.Out.Bytes(), errText(ev.Out.Err))
-			for _, f := range judge(kind, ev, &cs.Comp, ref, oref, b.Sites) {
+			if ev.Side != nil && srefs[ev.Key] != nil {
+				fmt.Printf("        side Ds=%q\n        side received=%q\n", srefs[ev.Key].D, ev.Side.Bytes())
+			}
+			for _, f := range judge(kind, ev, &cs.Comp, ref, oref, srefs[ev.Key], b.Sites) {
 				n := cs
 				n.Rule, n.Detail, n.L = f.rule, f.detail, ref.L()
 				viols = append(viols, viol{n})
